@@ -196,6 +196,7 @@ func c10RunOne(t *testing.T, sc c10Scenario, prefix []int, expect []gate.PointRe
 			}
 		}
 		var wg sync.WaitGroup
+		ghostDone := make(chan struct{})
 		if sc.GhostSize > 0 {
 			gr := &c10GhostReader{size: sc.GhostSize, have: sc.GhostHave, late: sc.GhostLate, wake: make(chan struct{})}
 			wg.Add(1)
@@ -210,6 +211,7 @@ func c10RunOne(t *testing.T, sc c10Scenario, prefix []int, expect []gate.PointRe
 					obs.GhostErr = "ok"
 				}
 				obs.mu.Unlock()
+				close(ghostDone)
 				// the stalled peer wakes up again some time after its reader gave up on it
 				x.Go("ghost.resume", func() {
 					gate.Point("ghost.resume")
@@ -224,6 +226,10 @@ func c10RunOne(t *testing.T, sc c10Scenario, prefix []int, expect []gate.PointRe
 				for i, name := range names {
 					if name == "@pause" {
 						time.Sleep(25 * time.Second) // longer than the runner waits for a silent client (virtual time)
+						continue
+					}
+					if name == "@ghost" {
+						<-ghostDone // the other stream's read has run into its time-out
 						continue
 					}
 					key := fmt.Sprintf("%d/%d/%s", si, i, name)
@@ -514,7 +520,7 @@ func c10Scenarios(thorough bool) []c10Scenario {
 				if !thorough && have == 0 && late == 1 {
 					continue
 				}
-				out = append(out, c10Scenario{Senders: [][]string{{"abc"}}, Fault: "none", GhostSize: 16, GhostHave: have, GhostLate: late, AnswerCuts: cuts, StdinFault: "none", Main: "closewait"})
+				out = append(out, c10Scenario{Senders: [][]string{{"@ghost", "abc"}}, Fault: "none", GhostSize: 16, GhostHave: have, GhostLate: late, AnswerCuts: cuts, StdinFault: "none", Main: "closewait"})
 			}
 		}
 	}
@@ -541,7 +547,7 @@ func c10Scenarios(thorough bool) []c10Scenario {
 			total += len(s)
 		}
 		for _, f := range []string{"none", "exit0", "exit1", "closeout", "garbage", "unknown"} {
-			if !thorough && total > 1 && (f == "unknown" || f == "exit1") {
+			if !thorough && total > 1 && (f == "unknown" || f == "exit1" || (f == "garbage" && len(ss) > 1)) {
 				continue
 			}
 			for at := 0; at <= total; at++ {
@@ -553,9 +559,27 @@ func c10Scenarios(thorough bool) []c10Scenario {
 		}
 		// the client answers a test while the runner is still writing that request to it, then exits
 		for at := 0; at < total; at++ {
+			if !thorough && len(ss) > 1 {
+				continue // two senders with a pre-answering client: thorough tier (45k+ executions each)
+			}
 			out = append(out, c10Scenario{Senders: ss, Fault: "preanswer", FaultName: ss[len(ss)-1][0], FaultAt: at, StdinFault: "none", Sync: true, Main: "closewait"})
 		}
 	}
+	// the small families first: a budget cut on a loaded machine then falls on the tail of the big product
+	prio := func(sc c10Scenario) int {
+		if sc.GhostSize > 0 || len(sc.AnswerCuts) > 0 || sc.Sync {
+			return 0
+		}
+		for _, ss := range sc.Senders {
+			for _, n := range ss {
+				if strings.HasPrefix(n, "@") {
+					return 0
+				}
+			}
+		}
+		return 1
+	}
+	sort.SliceStable(out, func(i, j int) bool { return prio(out[i]) < prio(out[j]) })
 	return out
 }
 
